@@ -59,6 +59,7 @@ impl<'a> LTr<'a> {
                     "Read" => write!(binders, " [Rs.Read {p}]").unwrap(),
                     "Write" => write!(binders, " [Rs.Write {p}]").unwrap(),
                     "AesKind" => {}
+                    "Cipher:KeyInit" => write!(binders, " [Rs.AesKind {p}]").unwrap(),
                     other => return Err(format!("trait bound {other}")),
                 }
             }
@@ -127,6 +128,10 @@ impl<'a> LTr<'a> {
     fn is_io(&self) -> bool {
         matches!(self.sig.ret, LTy::Io(_))
     }
+    /// the function returns a `Result` with an error type of the vocabulary (`Except`, inside the panic monad)
+    fn is_res(&self) -> bool {
+        matches!(self.sig.ret, LTy::Res(..))
+    }
     #[allow(dead_code)]
     fn ok_res(&self, v: &str) -> String {
         if self.is_io() { format!("Rs.IoRes.ok {v}") } else { format!("some {v}") }
@@ -183,6 +188,13 @@ impl<'a> LTr<'a> {
             match s {
                 Stmt::Expr(e, None) if i + 1 == n => {
                     // tail expression
+                    if let (true, Expr::If(ie)) = (fn_body && self.sig.ret != LTy::Unit && !self.closure, e) {
+                        if value_if(ie) {
+                            // `if c { value } else { value }` as the function's result
+                            self.if_tail(ie)?;
+                            continue;
+                        }
+                    }
                     if self.is_stmt_like(e) {
                         self.stmt_expr(e)?;
                     } else if fn_body {
